@@ -680,6 +680,7 @@ namespace BS.Heap
 
 def Op.isDecompose : Op → Bool
   | .decompose _ => true
+  | .clearDecompose _ => true
   | _ => false
 
 /-- the string class of `.string = v` is a string class -/
@@ -734,6 +735,7 @@ theorem step_good2_noDecompose {h h' : Heap} {op : Op} (hg : Good2 h) (hd : op.i
     · exact clear_good2 hE hL hg hs
     · cases hs
   | decompose x => simp [Op.isDecompose] at hd
+  | clearDecompose t => simp [Op.isDecompose] at hd
   | smooth t =>
     simp only [step] at hs; split at hs
     · exact smooth_good2 hE hL hg hs
